@@ -275,6 +275,9 @@ func freshEncoder(op int) ttlv.Encoder {
 
 // codecOp executes one operation on one corpus entry and renders the result as a string.
 // encode operations on a reused encoder pass enc != nil.
+// clearThroughCopy is set by the reused-encoder task for the duration of one step (single-threaded under the baton).
+var clearThroughCopy bool
+
 func codecOp(e *corpusEntry, op int, enc *ttlv.Encoder) (res string) {
 	defer func() {
 		if r := recover(); r != nil {
@@ -298,7 +301,12 @@ func codecOp(e *corpusEntry, op int, enc *ttlv.Encoder) (res string) {
 						*enc = freshEncoder(op)
 					}
 				}()
-				enc.Clear()
+				if clearThroughCopy {
+					cp := *enc
+					cp.Clear()
+				} else {
+					enc.Clear()
+				}
 			}()
 			enc.Any(e.value)
 			return string(bytes.Clone(enc.Bytes()))
@@ -397,6 +405,10 @@ func codecReference() {
 type CodecStep struct {
 	Entry int `json:"e"`
 	Op    int `json:"op"`
+	// Copy (steps on reused encoders): the encoder is cleared through a copy of its value (an Encoder is a small
+	// value holding references: the variable of a range loop, a value receiver, a helper taking it by value all
+	// designate the same encoder)
+	Copy bool `json:"copy,omitempty"`
 }
 
 type C20Sc struct {
@@ -440,7 +452,9 @@ func genC20(g *simrt.Tape, tier string) any {
 	}
 	if g.Draw(2) == 0 {
 		for i, n := 0, 2+g.Draw(10); i < n; i++ {
-			sc.History = append(sc.History, step(true))
+			st := step(true)
+			st.Copy = g.Draw(3) == 0
+			sc.History = append(sc.History, st)
 		}
 	}
 	return sc
@@ -522,7 +536,10 @@ func execC20(x *X, scAny any) {
 					continue
 				}
 				s.Eventf("reused %s #%d", codecOpNames[st.Op], st.Entry)
-				check("reused-encoder", st, codecOp(&corpus[st.Entry], st.Op, &encs[st.Op]))
+				clearThroughCopy = st.Copy
+				r := codecOp(&corpus[st.Entry], st.Op, &encs[st.Op])
+				clearThroughCopy = false
+				check("reused-encoder", st, r)
 			}
 		})
 	}
